@@ -1194,7 +1194,8 @@ pub fn o_case_pub(c: &QCase, st: &mut Stats) -> Result<(), String> {
 /// For C19: put a collection through the operations of a case; what each operation returns is C11's
 /// business and is not looked at.
 pub fn drive(q: &mut Qualifiers, c: &QCase) {
-    let mut m = Model::new();
+    // the collection may come with content (a builder re-opened from an existing value)
+    let mut m: Model = q.iter().map(|(k, v)| (k.as_str().to_string(), v.to_string())).collect();
     for (k, v) in &c.init {
         let _ = step(q, &mut m, &QOp::Insert(k.clone(), v.clone()));
     }
